@@ -24,11 +24,14 @@ of the `i`-th input record is exactly the struct whose `j`-th field is slot `i` 
 Covers every data type `build_builder` accepts, at any nesting — including Utf8View / BinaryView and
 `Dictionary(integer, Utf8 | LargeUtf8)` — and every presentation of a value.  Hypotheses, all explicit:
   `hschema`  no `FixedSizeBinary(0)` (known finding).  (Map entries with exactly two children and integer dictionary
-             keys are no longer hypotheses: `build_builder` refuses everything else — repo fixes 095456f, 7359431.)
-  `hcov`     `coveredF`: no dictionary whose VALUE type is not Utf8/LargeUtf8 (`build_builder` accepts any, e.g.
-             `Dictionary(Int8, Date32)`; R1 and the physical half cover those, the content statement R2 does not)
+             keys are not hypotheses: `build_builder` refuses everything else — repo fixes 095456f, 7359431.)
+  `hcov`     `coveredF`: a dictionary with an integer key type has a Utf8 / LargeUtf8 VALUE type (`build_builder` accepts
+             any value type, e.g. `Dictionary(Int8, Date32)`; R1 covers all of them, the content statement R2 those
+             whose value builder refuses strings — `coveredW`, Lemmas/C01NewShape.lean —, the physical half needs the
+             string builders: the placeholder value `into_array` appends)
   `hsafe`    `Safe` (schema: no dictionary with non-nullable keys below a nullable struct / fixed-size list, no
-             dictionary-keyed dictionary — `dict_placeholder_unstable`)
+             dictionary-keyed dictionary — `dict_placeholder_unstable`).  `C01_build_decode'` (Props/C01Obs.lean) is this
+             theorem WITHOUT `hsafe`
   `hraw`     `structStreamsAlternate`: every raw `serialize_key`/`serialize_value` call stream inside the records
              alternates key, value, key, value … (decidable; `= !Spec.containsMalformed`).  Map columns refuse all
              other streams (`map_refuses_non_alternating`); struct positions ACCEPT them and the documentation gives
